@@ -38,7 +38,7 @@ def outcomes(body):
     is chosen by an earlier branch (`let pattern = if .. {A} else {B}; new(addr, pattern)`) is split into one
     outcome per alternative, each under the guards of the block that chose it."""
     out = []
-    for d in body.defs().get(0, []):
+    for d in body.ret_defs():
         v = body.rvalue_expr(d[3]) if d[0] == 'assign' else body.call_expr(d[2])
         v = peel(v, calls=False)
         addr = pat = pat_op = None
@@ -70,7 +70,7 @@ def rule_dispatch(ctx):
     d = prog.one('script::eval_from_bytes')
     ctx.touch(d)
     rets = []
-    for df in d.defs().get(0, []):
+    for df in d.ret_defs():
         v = d.call_expr(df[2]) if df[0] == 'call' else d.rvalue_expr(df[3])
         rets.append((canon(v), util.guards_at(d, df[1]), df[1]))
     exp = {('eval_from_bytes_bitcoin(a1, a2)', ('a2 in {0,111}',)), ('eval_from_bytes_custom(a1, a2)', ('a2 notin {0,111}',))}
@@ -168,7 +168,7 @@ def rule_addr(ctx):
     ctx.touch(p)
     push = '(each(instructions(a1))? as PushBytes).0'
     rets = []
-    for df in p.defs().get(0, []):
+    for df in p.ret_defs():
         v = p.rvalue_expr(df[3]) if df[0] == 'assign' else p.call_expr(df[2])
         rets.append((canon(v), util.guards_at(p, df[1]), df[1]))
     some = [r for r in rets if r[0].startswith('Option::Some')]
@@ -192,7 +192,7 @@ def rule_unspendable(ctx):
     acc = set()
     rej_empty = False
     outs = []
-    for df in u.defs().get(0, []):
+    for df in u.ret_defs():
         alts = None
         if df[0] == 'assign' and df[3]['k'] == 'use':
             alts = util.value_alternatives(u, df[3]['op'])
